@@ -225,6 +225,23 @@ def feature_cases(run, scratch):
     out.append((Case("feature:v2-dontmerge-level", "feature", ["filter all 0", "flags 0", "src synthetic package:2 pu:2"],
                      ["ann group 1 1 1 0 0", "ann group 5 5 1 0 0"], ["feature"]),
                 [(p, "buffer", "v2") for p in ALL] + [(("0", "0"), "file", "v2"), (("0", "0"), "buffer", "v3"), (("1", "1"), "file", "v3")]))
+    # info lists: exact duplicate pairs (adjacent and separated), same name with other values, same value under other names,
+    # for topology infos, object infos (root, inner, leaf) and cpukind infos: count, order and bytes must survive
+    def dup_list(prefix):
+        return [(prefix + b"Rack", b"r12"), (prefix + b"Rack", b"r12"), (prefix + b"Zone", b"a"), (prefix + b"Rack", b"r12"), (prefix + b"Rack", b"r13"),
+                (prefix + b"Other", b"r12"), (prefix + b"Zone", b"a"), (prefix + b"Last", b"<&>")]
+    anns = ["ann tinfo %s %s" % (H(n), H(val)) for n, val in dup_list(b"T")]
+    for k in (0, 1, 3):
+        anns += ["ann info %d %s %s" % (k, H(n), H(val)) for n, val in dup_list(b"O%d" % k)]
+    ck = dup_list(b"K")
+    anns.append("ann cpukind 1 3 %d %s" % (len(ck), " ".join("%s %s" % (H(n), H(val)) for n, val in ck)))
+    anns.append("ann cpukind 4 1 2 %s %s %s %s" % (H(b"KRack"), H(b"r12"), H(b"KRack"), H(b"r12")))
+    out.append((Case("feature:info-duplicates", "feature", SYN, anns, ["feature"]),
+                [(p, m, "v3") for p in ALL for m in ("buffer", "file")] + [(("0", "0"), "buffer", "v2"), (("1", "1"), "file", "v2")]))
+    # empty info values and names
+    anns = ["ann tinfo %s %s" % (H(b"TEmpty"), H(b"")), "ann tinfo %s %s" % (H(b"TAfter"), H(b"x")), "ann info 1 %s %s" % (H(b"OEmpty"), H(b"")),
+            "ann info 1 %s %s" % (H(b"OAfter"), H(b"y")), "ann cpukind 1 3 2 %s %s %s %s" % (H(b"KEmpty"), H(b""), H(b"KAfter"), H(b"z"))]
+    out.append((Case("feature:info-empty-values", "feature", SYN, anns, ["feature"]), [(p, "buffer", "v3") for p in ALL]))
     # topology diffs: export to file and buffer, load both back, apply
     out.append((Case("feature:diff-xml", "feature", SYN, ["diffrt {TMP} %s" % G.hx(b"ref <name> & \"q\""), "ann name 1 s70"], ["feature"]),
                 [(("0", "0"), "buffer", "v3"), (("1", "1"), "buffer", "v3"), (("0", "1"), "file", "v3"), (("1", "0"), "file", "v3")]))
